@@ -205,6 +205,14 @@ def cases(tier):
             yield Case("beam:N=%d:lam=%g:d1=%g:w0=%gpx:c=%s:za=%gzR:reduced" % (N, 0.5e-6, 0.01, w0, c, -0.6),
                        {"kind": "beam", "N": N, "wvl": 0.5e-6, "d1": 0.01, "w0px": w0, "c": c, "za_f": -0.6,
                         "z_f": [1.0, -2.5], "mags": [1.0, 1.3]})
+    # micrometre and nanometre-scale sampling (a detector plane, a fibre tip): "all wavelengths / spacings"; judged
+    # since the repair c18cb4e of /repo (angularSpectrum had added 1e-10 m^2 to the squared radius: a constant phase
+    # of 0.04 rad between the propagators at 10 um pixels)
+    for d_small in (1e-5, 2.5e-6, 4e-4):
+        for c, w0 in (("A", 7.0), ("B", 5.5)):
+            yield Case("beam:N=%d:lam=%g:d1=%g:w0=%gpx:c=%s:za=%gzR:reduced" % (128, 0.5e-6, d_small, w0, c, -0.6),
+                       {"kind": "beam", "N": 128, "wvl": 0.5e-6, "d1": d_small, "w0px": w0, "c": c, "za_f": -0.6,
+                        "z_f": [1.0, -2.5, 0.4], "mags": [1.0, 1.3, 0.5, 2.0]})
     for N in NS_AIRY(tier):
         for wvl, f, div in ((0.5e-6, 2.5, 16), (1.5e-6, -2.5, 12)):
             yield Case("airy:N=%d:lam=%g:f=%g:a=N/%d" % (N, wvl, f, div),
